@@ -92,6 +92,10 @@ func c09Stress(w *core.Worker, i int) {
 					// plain read first, then the change: the table must be read again under the exclusive lock
 					op.kind = "incsel"
 					prog = fmt.Sprintf("SELECT n FROM counter; UPDATE counter SET n = n + 1, m = m + 1; INSERT INTO log VALUES (%d, %d); SELECT n FROM counter;", c, s)
+				case k == 4 && s%3 == 2:
+					// the table is named only in the second operand of a set operation under FOR UPDATE: it is held like the first
+					op.kind = "incfuvar"
+					prog = fmt.Sprintf("SELECT id FROM aux WHERE id < 0 UNION ALL SELECT n FROM counter FOR UPDATE; VAR @v := (SELECT n FROM counter); UPDATE counter SET n = @v + 1, m = @v + 1; INSERT INTO log VALUES (%d, %d); SELECT n FROM counter;", c, s)
 				case k == 4 && s%2 == 0:
 					// read under FOR UPDATE through a join, then write what was read: FOR UPDATE must hold every table of the query
 					op.kind = "incfuvar"
@@ -295,7 +299,7 @@ type schedEvent struct {
 }
 
 var c09Scenarios = [][]string{
-	{"W", "W"}, {"W", "R"}, {"R", "W"}, {"Wfu", "W"}, {"W", "Wrb"}, {"Wfu", "R"}, {"W", "W", "R"}, {"R", "R", "W"}, {"Wsel", "W"}, {"Wfx", "W"}, {"Wfs", "W"},
+	{"W", "W"}, {"W", "R"}, {"R", "W"}, {"Wfu", "W"}, {"W", "Wrb"}, {"Wfu", "R"}, {"W", "W", "R"}, {"R", "R", "W"}, {"Wsel", "W"}, {"Wfx", "W"}, {"Wfs", "W"}, {"Wun", "W"},
 }
 
 func c09Prog(kind string) string {
@@ -310,6 +314,8 @@ func c09Prog(kind string) string {
 		return "SELECT n FROM counter; UPDATE counter SET n = n + 1, m = m + 1;"
 	case "Wfx": // read FOR UPDATE, run other program text, write what was read: the hold spans the whole transaction
 		return "VAR @v; SELECT @v := n FROM counter FOR UPDATE; EXECUTE 'VAR @x := 1;'; UPDATE counter SET n = @v + 1, m = @v + 1;"
+	case "Wun": // the table is named only in the second operand of a set operation under FOR UPDATE
+		return "SELECT id FROM aux WHERE id < 0 UNION ALL SELECT n FROM counter FOR UPDATE; VAR @v := (SELECT n FROM counter); UPDATE counter SET n = @v + 1, m = @v + 1;"
 	case "Wfs":
 		return "VAR @v; SELECT @v := n FROM counter FOR UPDATE; SOURCE `noop.sql`; UPDATE counter SET n = @v + 1, m = @v + 1;"
 	}
@@ -319,7 +325,7 @@ func c09Prog(kind string) string {
 // runSchedule executes one schedule. choose(decision index, enabled roles, current) returns the role index to release.
 func runSchedule(w *core.Worker, scen []string, choose func(dec int, enabled []int, cur int) int) (sig []string, violations []string, switches int, ok bool) {
 	d := core.FreshDir(w.Work, "sched")
-	core.WriteFiles(d, map[string]string{"counter.csv": c09Counter, "noop.sql": "VAR @sourced := 1;\n"})
+	core.WriteFiles(d, map[string]string{"counter.csv": c09Counter, "aux.csv": "id\n1\n", "noop.sql": "VAR @sourced := 1;\n"})
 	fifoDir := core.FreshDir(w.Work, "fifo")
 	evPath := filepath.Join(fifoDir, "events")
 	_ = syscall.Mkfifo(evPath, 0600)
@@ -502,7 +508,7 @@ func runSchedule(w *core.Worker, scen []string, choose func(dec int, enabled []i
 		if ro.code != 0 {
 			viol(fmt.Sprintf("%s ended with exit code %d", ro.name, ro.code))
 		}
-		if (ro.kind == "W" || ro.kind == "Wfu" || ro.kind == "Wsel" || ro.kind == "Wfx" || ro.kind == "Wfs") && ro.code == 0 {
+		if (ro.kind == "W" || ro.kind == "Wfu" || ro.kind == "Wsel" || ro.kind == "Wfx" || ro.kind == "Wfs" || ro.kind == "Wun") && ro.code == 0 {
 			committed++
 		}
 		if ro.kind == "R" && ro.code == 0 {
